@@ -50,6 +50,8 @@ func Walk(base []byte, ops []Op, pageSize int, fn func(cp *CrashPoint) bool) {
 				durable = ApplyUnit(durable, u)
 			}
 			pending = nil
+		case OpFault:
+			continue
 		case OpSyncFail:
 			// nothing became durable for sure
 		case OpMarker:
